@@ -20,8 +20,14 @@
 use std::{
     alloc::{Layout, handle_alloc_error},
     ptr::NonNull,
-    sync::{Arc, Mutex},
+    sync::Arc,
 };
+
+#[cfg(not(nlnetlabs_roto_verif))]
+use std::sync::Mutex;
+
+#[cfg(nlnetlabs_roto_verif)]
+use crate::verif_api::sched::Mutex;
 
 use crate::value::{VTable, vtable::DropFn};
 
